@@ -20,6 +20,10 @@ pub enum Mutation {
     Tail { bytes: Vec<u8> },
     /// overwrite the 8-byte version field
     Version { v: u64 },
+    /// recompute the trailing masked CRC-32C over everything before it, so
+    /// that verify() finds a matching checksum on otherwise arbitrary bytes
+    /// (untrusted data can carry a valid checksum: a CRC is not a MAC)
+    FixChecksum,
 }
 
 #[derive(Clone, Debug, PartialEq, Eq)]
@@ -75,6 +79,13 @@ pub fn apply(bytes: &mut Vec<u8>, m: &Mutation) {
         Mutation::Version { v } => {
             if bytes.len() >= 8 {
                 bytes[..8].copy_from_slice(&v.to_le_bytes());
+            }
+        }
+        Mutation::FixChecksum => {
+            let n = bytes.len();
+            if n >= 4 {
+                let sum = crate::model::masked_crc32c(&bytes[..n - 4]);
+                bytes[n - 4..].copy_from_slice(&sum.to_le_bytes());
             }
         }
     }
@@ -155,6 +166,39 @@ pub fn probe_wrappers(bytes: &[u8]) -> Option<String> {
             let _ = f.verify();
             // re-opening through map_data must be total as well
             let _ = f.map_data(|d| d.into_owned());
+        }
+        // map_data is a second way to open arbitrary bytes: what the closure
+        // returns need not be what was opened before
+        let n = bytes.len();
+        let mut rev = bytes.to_vec();
+        rev.reverse();
+        let others: [Vec<u8>; 6] = [
+            vec![],
+            bytes[..std::cmp::min(3, n)].to_vec(),
+            bytes[..n.saturating_sub(1)].to_vec(),
+            bytes[..n / 2].to_vec(),
+            rev,
+            vec![0u8; 36],
+        ];
+        for other in others.iter() {
+            if let Ok(f) = fst::raw::Fst::new(bytes) {
+                if let Ok(g) = f.map_data(|_| other.clone()) {
+                    let _ = (g.len(), g.is_empty(), g.fst_type(), g.size(), g.as_bytes().len());
+                    let _ = g.verify();
+                }
+            }
+            if let Ok(m) = fst::Map::new(bytes) {
+                if let Ok(g) = m.map_data(|_| other.clone()) {
+                    let _ = (g.len(), g.is_empty());
+                    let _ = g.as_fst().verify();
+                }
+            }
+            if let Ok(s) = fst::Set::new(bytes) {
+                if let Ok(g) = s.map_data(|_| other.clone()) {
+                    let _ = (g.len(), g.is_empty());
+                    let _ = g.as_fst().verify();
+                }
+            }
         }
     }));
     r.err().map(|e| format!("Map/Set/Cow path: {}", panic_msg(e)))
